@@ -34,6 +34,7 @@ OutV(k, j) == 10 * k + j + 1
 
 \* pattern values <<kind, name, a, b>>:
 PVar(n) == <<"var", n, 0, 0>>
+PVarO(n) == <<"varo", n, 0, 0>>         \* Var(n, can_match_none=True): also matches an omitted input (then it is bound to None)
 PConst(c) == <<"const", "", c, 0>>
 POut(p, j) == <<"out", "", p, j>>       \* output j of pattern node p
 PNone == <<"none", "", 0, 0>>
@@ -66,6 +67,7 @@ InsOf(p, S) == IF p \in S /\ Len(pat[p].ins) = 2 THEN <<pat[p].ins[2], pat[p].in
 RECURSIVE CorrN(_, _, _, _), CorrV(_, _, _, _)
 CorrV(pv, v, ch, S) ==
   CASE pv[1] = "var" -> IF v = NONEV THEN {BAD} ELSE {<<"var", pv[2], v, 0>>}
+    [] pv[1] = "varo" -> {<<"var", pv[2], v, 0>>}
     [] pv[1] = "const" -> IF v # NONEV /\ IsConstV(v) /\ ConstClose(v, pv[3]) THEN {} ELSE {BAD}
     [] pv[1] = "none" -> IF v = NONEV THEN {} ELSE {BAD}
     [] pv[1] = "out" -> IF v = NONEV \/ Producer(v) = 0 \/ OutIndex(v) # pv[4] THEN {BAD} ELSE CorrN(pv[3], Producer(v), ch, S)
@@ -74,7 +76,7 @@ CorrN(p, k, ch, S) ==
   LET pn == pat[p] g == graph[k] IN
   IF pn.op # g.op \/ ~AttrOK(pn, g) \/ (Len(g.ins) > Len(pn.ins) /\ ~pn.aoi) THEN {BAD}
   ELSE {<<"node", "", p, k>>} \cup UNION {CorrV(InsOf(p, S)[i], InputAt(g, i), ch, S) : i \in 1..Len(pn.ins)}
-PVarsOf == UNION {{pat[p].ins[i][2] : i \in {i \in 1..Len(pat[p].ins) : pat[p].ins[i][1] = "var"}} : p \in 1..Len(pat)}
+PVarsOf == UNION {{pat[p].ins[i][2] : i \in {i \in 1..Len(pat[p].ins) : pat[p].ins[i][1] \in {"var", "varo"}}} : p \in 1..Len(pat)}
               \cup UNION {{alts[k][j][2] : j \in {j \in 1..2 : alts[k][j][1] = "var"}} : k \in 1..Len(alts)}
 EffGouts == gouts \cup {OutV(Len(graph), 0)}      \* the host graph returns its last node's first output, plus gouts
 Removable(nodes, outs) ==  \* _valid_to_replace: outputs of matched nodes other than the values of the pattern outputs
@@ -99,8 +101,10 @@ OutValsOfC(C) == UNION {{OutV(e[4], pouts[i][4]) : e \in {e \in C : e[1] = "node
 OutsBoundC(C) == \A i \in 1..Len(pouts) : \E e \in C : e[1] = "node" /\ e[3] = pouts[i][3]
 Functional(C, kind) == \A e1, e2 \in {e \in C : e[1] = kind} : (e1[2] = e2[2] /\ (kind = "var" \/ e1[3] = e2[3])) => e1 = e2
 \* keep = the rule keeps the matched nodes (remove_nodes=False): the removability side-condition does not apply
+\* the attribute variable is ONE variable ("A") for the whole pattern: every node that mentions it must carry the same value
+AttrVarConsistent(C) == \A e1, e2 \in {e \in C : e[1] = "node" /\ pat[e[3]].at[1] = "v"} : graph[e1[4]].a = graph[e2[4]].a
 IsInstanceA(ch, S, keep, asg) == LET C == CorrAll(ch, S, asg) IN
-                  /\ BAD \notin C /\ Functional(C, "node") /\ Functional(C, "var") /\ OutsBoundC(C)
+                  /\ BAD \notin C /\ Functional(C, "node") /\ Functional(C, "var") /\ OutsBoundC(C) /\ AttrVarConsistent(C)
                   /\ (keep \/ Removable(NodesOfC(C), OutValsOfC(C)))
 IsInstanceSK(ch, S, keep) == \E asg \in OutAssigns : IsInstanceA(ch, S, keep, asg)
 IsInstanceS(ch, S) == IsInstanceSK(ch, S, FALSE)
@@ -129,7 +133,7 @@ R(ok, st) == [ok |-> ok, st |-> st]
 \* MatchResult.bind / bind_value: a name (or unnamed pattern value) bound anywhere on the stack must agree
 Bind(name, v, st) == LET old == Lookup(AllB(st), name) IN
                      IF old # {} THEN R(old = {v}, st) ELSE R(TRUE, TopAdd(st, "b", <<name, v>>))
-BindValue(pv, v, st) == IF pv[1] = "var" THEN Bind(pv[2], v, st)
+BindValue(pv, v, st) == IF pv[1] \in {"var", "varo"} THEN Bind(pv[2], v, st)
                         ELSE LET old == Lookup(AllVB(st), pv) IN
                              IF old # {} THEN R(old = {v}, st) ELSE R(TRUE, TopAdd(st, "vb", <<pv, v>>))
 \* PartialMatchResult.merge: the code merges bindings and matched nodes only
@@ -147,8 +151,12 @@ MNode(p, k, st, devs) ==
   LET bound == Lookup(AllNB(st), p) pn == pat[p] g == graph[k] IN
   IF bound # {} THEN R(bound = {k}, st)           \* same pattern node may not match two graph nodes
   ELSE IF pn.op # g.op \/ ~AttrOK(pn, g) THEN R(FALSE, st)
-  ELSE LET st1 == [TopAdd(st, "nb", <<p, k>>) EXCEPT ![Len(st)].ns = Append(@, k)]
-       IN IF Len(g.ins) > Len(pn.ins) /\ ~pn.aoi THEN R(FALSE, st1)
+  ELSE LET st0 == [TopAdd(st, "nb", <<p, k>>) EXCEPT ![Len(st)].ns = Append(@, k)]
+           \* an attribute variable is bound like any other name: a second node must carry an equal value
+           ra == IF pn.at[1] = "v" THEN Bind("@A", g.a, st0) ELSE R(TRUE, st0)
+           st1 == ra.st
+       IN IF ~ra.ok THEN R(FALSE, st1)
+          ELSE IF Len(g.ins) > Len(pn.ins) /\ ~pn.aoi THEN R(FALSE, st1)
           ELSE LET ri == MInputs(p, k, 1, st1, devs) IN
                IF ~ri.ok THEN ri
                ELSE \* bind the pattern node's outputs to the node's outputs
@@ -179,6 +187,7 @@ MValue(pv, v, st, devs) ==
                  ELSE IF devs.force[pv[3]] = 0 THEN MAlts(a, 1, v, rb.st, devs)   \* BacktrackingOr
                  ELSE LET r == MValue(a[devs.force[pv[3]]], v, Append(rb.st, EmptyPM), devs) IN
                       IF r.ok THEN R(TRUE, Merge(r.st, devs.d)) ELSE R(FALSE, rb.st)
+         [] pv[1] = "varo" -> R(TRUE, rb.st)         \* can_match_none
          [] OTHER -> R(v # NONEV, rb.st)             \* plain variable: None only if can_match_none
 \* BacktrackingOr: enter_new_match / merge_current_match / abandon_current_match
 MAlts(a, j, v, st, devs) ==
@@ -200,7 +209,7 @@ RunCand(cand, dv) ==
            outs == UNION {Lookup(top.vb, pouts[i]) : i \in 1..Len(pouts)}       \* _get_output_values
        IN IF \E i \in 1..Len(pouts) : Lookup(top.vb, pouts[i]) = {} THEN FAILED
           ELSE IF ~dv.keep /\ ~Removable(nodes, outs) THEN FAILED
-          ELSE [ok |-> TRUE, b |-> top.b, ns |-> top.ns]
+          ELSE [ok |-> TRUE, b |-> {e \in top.b : e[1] # "@A"}, ns |-> top.ns]
 \* match(): the first output node is the given node; the others range over the graph's nodes of the same operator, in
 \* graph order (itertools.product); the first combination that matches wins.  (At most two output nodes here.)
 RECURSIVE TryCands(_, _)
@@ -220,11 +229,13 @@ RunWith(devs) == RunWithK(devs, FALSE)
 
 -----------------------------------------------------------------------------
 (* derivation of cases *)
-LeafVals == {PVar("x"), PVar("y"), PConst(1)}
+LeafVals == {PVar("x"), PVar("y"), PConst(1)} \cup (IF "optvar" \in Features THEN {PVarO("z")} ELSE {})
 PrevOuts == UNION {{POut(p, j) : j \in 0..(NOuts(pat[p].op) - 1)} : p \in 1..Len(pat)}
 OrVals == {POr(k) : k \in 1..Len(alts)}
 InVals == LeafVals \cup PrevOuts \cup OrVals
-AttrPats == IF "attr" \in Features THEN {<<"any", 0>>, <<"c", 1>>, <<"v", 0>>, <<"vo", 0>>} ELSE {<<"any", 0>>}
+AttrPats == IF "attr" \in Features THEN {<<"any", 0>>, <<"c", 1>>, <<"v", 0>>, <<"vo", 0>>}
+            ELSE IF "attr2" \in Features THEN {<<"any", 0>>, <<"v", 0>>}       \* the attribute variable shared by several nodes
+            ELSE {<<"any", 0>>}
 Flags == IF "flags" \in Features THEN {<<FALSE, TRUE>>, <<TRUE, TRUE>>, <<FALSE, FALSE>>} ELSE {<<FALSE, TRUE>>}
 
 Init == /\ pat = <<>> /\ alts = <<>> /\ pouts = <<>> /\ graph = <<>> /\ gouts = {} /\ root = 0 /\ stage = "pattern"
@@ -255,14 +266,15 @@ UsesAllAlts == \A k \in 1..Len(alts) : \E p \in 1..Len(pat) : \E i \in 1..Len(pa
 InstNode(p, nm, vm, ch) ==
   LET pn == pat[p]
       RECURSIVE Val(_)
-      Val(pv) == CASE pv[1] = "var" -> vm[pv[2]] [] pv[1] = "const" -> 3 [] pv[1] = "none" -> NONEV
+      Val(pv) == CASE pv[1] \in {"var", "varo"} -> vm[pv[2]] [] pv[1] = "const" -> 3 [] pv[1] = "none" -> NONEV
                    [] pv[1] = "out" -> OutV(nm[pv[3]], pv[4]) [] pv[1] = "or" -> Val(alts[pv[3]][ch[pv[3]]])
       ins0 == [i \in 1..Len(pn.ins) |-> Val(pn.ins[i])]
       ins == IF ins0 # <<>> /\ ins0[Len(ins0)] = NONEV THEN SubSeq(ins0, 1, Len(ins0) - 1) ELSE ins0
   IN GN(pn.op, ins, IF pn.at[1] = "c" THEN pn.at[2] ELSE IF pn.at[1] = "v" THEN 2 ELSE 0)
 Instantiate ==
   /\ stage = "pattern" /\ pouts # <<>> /\ Reachable /\ UsesAllAlts
-  /\ \E ch \in [1..Len(alts) -> 1..2], vm \in [{"x", "y"} -> VarVals] :
+  /\ \E ch \in [1..Len(alts) -> 1..2], vm0 \in [{"x", "y"} -> VarVals], zv \in (IF "optvar" \in Features THEN VarVals \cup {NONEV} ELSE {NONEV}) :
+       LET vm == [n \in {"x", "y", "z"} |-> IF n = "z" THEN zv ELSE vm0[n]] IN
        LET need == NeedAll(ch)
            order == SelectSeq([p \in 1..Len(pat) |-> p], LAMBDA p : p \in need)
            nm == [p \in 1..Len(pat) |-> IF p \in need THEN CHOOSE i \in 1..Len(order) : order[i] = p ELSE 0]
@@ -336,6 +348,9 @@ MultiFeatures == {"or", "multiout"}
 MultiOnly == {"multiout", "multionly"}
 MultiOr == {"or", "multiout", "multionly"}
 BasicFeatures == {"or"}
+SharedAttr == {"attr2"}
+OptVar == {"optvar"}
+UCOps == {"U", "C"}
 AllOps == Ops
 TwoOps == {"U", "C"}
 ThreeOps == {"U", "C", "M"}
